@@ -17,6 +17,24 @@ NAMES = ['', '', 'a', 'b', '\xfc']
 FLAVOURS = {'adapter': AdapterRegistry, 'verifying': VerifyingAdapterRegistry}
 
 
+class Falsy:
+    def __bool__(self):
+        return False
+
+    def __len__(self):
+        return 0
+
+    def __repr__(self):
+        return 'Falsy()'
+
+
+FALSY = [0, '', (), False, Falsy(), 0.0, []]
+
+
+def same_result(got, exp):
+    return got is exp or (type(got) is type(exp) and got == exp)
+
+
 class Val:
     """Registered value: unique token, callable (factory / subscriber), with an
     equality class ``k`` so that equal-but-distinct values exist."""
@@ -36,8 +54,15 @@ class Val:
 
     def __call__(self, *obs):
         self.calls.append(obs)
+        return self.result(obs)
+
+    def result(self, obs):
+        """What calling this factory / subscriber returns: None (``ret`` false), a falsy object that is not None
+        (every fifth value: only None means "no adapter"), or a tuple naming the value and its arguments."""
         if not self.ret:
             return None
+        if self.serial % 5 == 0:
+            return FALSY[(self.serial // 5) % len(FALSY)]
         return ('made', self.serial) + tuple(id(o) for o in obs)
 
     def __repr__(self):
@@ -539,7 +564,7 @@ def run_c08(ctx, rng, job):
                         ok = got is D
                     else:
                         ok = len(f.calls) == 1 and len(f.calls[0]) == 1 and f.calls[0][0] is unwrap[0] and \
-                            (got is D if not f.ret else got == ('made', f.serial, id(unwrap[0])))
+                            (got is D if not f.ret else same_result(got, f.result((unwrap[0],))))
                     if not ok:
                         ctx.violation('adapter-call-vs-lookup', dict(where, name=n, factory=repr(f),
                                                                      got='default' if got is D else repr(got),
@@ -561,7 +586,7 @@ def run_c08(ctx, rng, job):
                         ok = got is D
                     else:
                         ok = len(f.calls) == 1 and len(f.calls[0]) == ar and all(a is b for a, b in zip(f.calls[0], unwrap)) and \
-                            (got is D if not f.ret else got == ('made', f.serial) + tuple(id(o) for o in unwrap))
+                            (got is D if not f.ret else same_result(got, f.result(tuple(unwrap))))
                     if not ok:
                         ctx.violation('queryMultiAdapter-vs-lookup', dict(where, name=n, factory=repr(f)))
             elif ep in ('subscriptions', 'subscribers'):
@@ -576,8 +601,10 @@ def run_c08(ctx, rng, job):
                     if sp is None:
                         ok = called_ok and (got == () or got == [] or got is None)
                     else:
-                        exp = [('made', s.serial) + tuple(id(o) for o in obs) for s in subs if s.ret]
-                        ok = called_ok and list(got) == exp
+                        exp = [s.result(obs) for s in subs if s.ret]
+                        ok = called_ok and len(got) == len(exp) and all(same_result(g_, e_) for g_, e_ in zip(got, exp))
+                        if any(not e_ and e_ is not None for e_ in exp):
+                            ctx.count('subscriber_results_falsy_not_none')
                     if not ok:
                         ctx.violation('subscribers-vs-subscriptions', dict(where, handlers=sp is None, subscriptions=repr(subs), got=repr(got)))
                     if subs:
